@@ -550,3 +550,125 @@ Proof.
   intros wl Hin. apply good_noesc; [apply HG, Hin|apply Hne, Hin].
 Qed.
 End Good2.
+
+(* ------------------------------------------------------------------ 2. indentation keeps lines good *)
+Lemma expand_Forall (Q : N -> Prop) R P : Forall Q R -> Forall Q P -> forall s b, Forall Q s -> Forall Q (expand R P b s).
+Proof.
+  intros HR HP. induction s as [|c r IH]; intros b Hs; [constructor|]. inversion Hs as [|? ? Hc Hr]; subst. rewrite expand_cons.
+  destruct (N.eqb c NL).
+  - apply Forall_app. split; [exact HR|apply IH, Hr].
+  - apply Forall_app. split; [destruct b; [exact HP|constructor]|]. constructor; [exact Hc|apply IH, Hr].
+Qed.
+
+(* Output's indentation is the machine with R = the line break, P = the blanks, started at a line start *)
+Definition indent_rest (n : Z) (b : bool) (ls : list str) : list str :=
+  match ls with [] => [] | l :: r => (if b then indent_line n l else l) :: map (indent_line n) r end.
+Lemma expand_join n : forall s b, expand [NL] (spaces n) b s = join_with NL (indent_rest n b (split_on NL s)).
+Proof.
+  induction s as [|c r IH]; intros b; [destruct b; reflexivity|]. rewrite expand_cons. cbn [split_on].
+  pose proof (split_on_nonempty NL r) as Hne. destruct (N.eqb_spec c NL) as [->|Hc].
+  - rewrite (IH true). destruct (split_on NL r) as [|l ls]; [congruence|]. destruct b; reflexivity.
+  - rewrite (IH false). destruct (split_on NL r) as [|l ls]; [congruence|]. cbn [indent_rest indent_line].
+    destruct ls as [|l2 ls]; destruct b; cbn [pad map join_with app]; rewrite <- ?app_assoc; reflexivity.
+Qed.
+Lemma indent_text_expand n s : indent_text n s = expand [NL] (spaces n) true s.
+Proof.
+  rewrite expand_join. unfold indent_text. pose proof (split_on_nonempty NL s) as Hne.
+  destruct (split_on NL s) as [|l ls]; [congruence|reflexivity].
+Qed.
+
+Definition NLs : str := [NL].
+Lemma NLs_safe : safe NLs. Proof. safe_by_compute. Qed.
+Lemma NLs_ne : NLs <> []. Proof. discriminate. Qed.
+
+(* the text between two tags: the blanks also come after a final line break (the closing tag follows it) *)
+Definition ind_text (n : Z) (s : str) : str := expand NLs (spaces n) false s ++ pad (spaces n) (at_start false s).
+Definition ind_piece (n : Z) (b : bool) (p : piece) : list piece :=
+  match p with
+  | PRaw t => [PRaw (expand NLs (spaces n) b t)]
+  | PLit tag s => [PRaw (pad (spaces n) b); PLit tag (ind_text n s)]
+  | PNamed nm s => [PRaw (pad (spaces n) b); PNamed nm (ind_text n s)]
+  end.
+Definition piece_start (b : bool) (p : piece) : bool := match p with PRaw t => at_start b t | _ => false end.
+Fixpoint ind_pieces (n : Z) (b : bool) (ps : list piece) : list piece :=
+  match ps with [] => [] | p :: r => ind_piece n b p ++ ind_pieces n (piece_start b p) r end.
+
+Lemma literal_ind_text n tag s : tag_name tag ->
+  expand NLs (spaces n) false (literal s tag) ++ pad (spaces n) (at_start false (literal s tag)) = literal (ind_text n s) tag.
+Proof.
+  intros Hn. destruct (expand_literal NLs (spaces n) NLs_safe NLs_ne (safe_spaces n) tag s false Hn) as [E1 E2].
+  rewrite E1, E2. unfold ind_text. destruct (at_start false s) eqn:ES; [|cbn [pad]; now rewrite !app_nil_r].
+  symmetry. apply literal_app_safe; [|apply safe_spaces].
+  rewrite (expand_ends NLs (spaces n) NLs_safe NLs_ne). destruct (ends_with_bsl s) eqn:EB; [|reflexivity].
+  rewrite (ends_bsl_not_start s false EB) in ES. discriminate.
+Qed.
+Lemma ind_wrapped n b o cl tag s : tag_name tag -> no_nl o -> o <> [] -> no_nl cl -> cl <> [] ->
+  expand NLs (spaces n) b (o ++ literal s tag ++ cl) = pad (spaces n) b ++ o ++ literal (ind_text n s) tag ++ cl
+  /\ at_start b (o ++ literal s tag ++ cl) = false.
+Proof.
+  intros Hn Ho Hone Hc Hcne. split.
+  - rewrite (expand_block _ _ o _ b Ho Hone), expand_app, (expand_no_nl _ _ cl _ Hc Hcne),
+      (app_assoc (expand NLs (spaces n) false (literal s tag))), (literal_ind_text n tag s Hn). reflexivity.
+  - rewrite (at_start_block o _ b Ho Hone), at_start_app. apply (at_start_no_nl cl _ Hc Hcne).
+Qed.
+Lemma ind_piece_str sty n b p : piece_ok sty p ->
+  expand NLs (spaces n) b (piece_str p) = line_str (ind_piece n b p) /\ at_start b (piece_str p) = piece_start b p.
+Proof.
+  destruct p as [t|tag s|nm s]; cbn [piece_ok piece_str ind_piece piece_start line_str flat_map].
+  - intros _. rewrite app_nil_r. split; reflexivity.
+  - intros [Hn _]. rewrite !tagged_eq, app_nil_r.
+    destruct (ind_wrapped n b (open_tag tag) close_any tag s Hn (open_tag_no_nl tag Hn) ltac:(discriminate) close_any_no_nl ltac:(discriminate)) as [E1 E2].
+    rewrite E1, E2. split; reflexivity.
+  - intros [Hn _]. rewrite app_nil_r.
+    destruct (ind_wrapped n b (open_tag nm) (close_tag nm) nm s Hn (open_tag_no_nl nm Hn) ltac:(discriminate) (close_tag_no_nl nm Hn) ltac:(discriminate)) as [E1 E2].
+    rewrite E1, E2. split; reflexivity.
+Qed.
+Lemma ind_pieces_str sty n : forall ps b, pieces_ok sty ps ->
+  expand NLs (spaces n) b (line_str ps) = line_str (ind_pieces n b ps).
+Proof.
+  induction ps as [|p r IH]; intros b Hok; [reflexivity|]. inversion Hok as [|? ? Hp Hr]; subst.
+  change (line_str (p :: r)) with (piece_str p ++ line_str r). cbn [ind_pieces]. rewrite line_str_app, expand_app.
+  destruct (ind_piece_str sty n b p Hp) as [E1 E2]. rewrite E1, E2, (IH _ Hr). reflexivity.
+Qed.
+Lemma ind_piece_ok sty n b p : piece_ok sty p -> pieces_ok sty (ind_piece n b p).
+Proof.
+  destruct p as [t|tag s|nm s]; cbn [piece_ok ind_piece]; intros H.
+  - constructor; [|constructor]. cbn [piece_ok]. apply expand_Forall; [apply NLs_safe|apply safe_spaces|exact H].
+  - constructor; [apply pad_safe, safe_spaces|]. constructor; [exact H|constructor].
+  - constructor; [apply pad_safe, safe_spaces|]. constructor; [exact H|constructor].
+Qed.
+Lemma ind_pieces_ok sty n : forall ps b, pieces_ok sty ps -> pieces_ok sty (ind_pieces n b ps).
+Proof.
+  induction ps as [|p r IH]; intros b Hok; [constructor|]. inversion Hok as [|? ? Hp Hr]; subst. cbn [ind_pieces].
+  apply Forall_app. split; [apply ind_piece_ok, Hp|apply IH, Hr].
+Qed.
+Lemma spaces_noesc n : no_esc (spaces n).
+Proof. unfold spaces. induction (Z.to_nat n); cbn [repeat]; constructor; [discriminate|assumption]. Qed.
+Lemma pad_noesc n b : no_esc (pad (spaces n) b). Proof. destruct b; [apply spaces_noesc|constructor]. Qed.
+Lemma ind_text_noesc n s : no_esc s -> no_esc (ind_text n s).
+Proof.
+  intros H. unfold ind_text. apply Forall_app. split; [|apply pad_noesc].
+  apply expand_Forall; [repeat constructor; discriminate|apply spaces_noesc|exact H].
+Qed.
+Lemma ind_pieces_noesc n : forall ps b, pieces_noesc ps -> pieces_noesc (ind_pieces n b ps).
+Proof.
+  induction ps as [|p r IH]; intros b H; [constructor|]. inversion H as [|? ? Hp Hr]; subst. cbn [ind_pieces].
+  apply Forall_app. split; [|apply IH, Hr].
+  destruct p as [t|tag s|nm s]; cbn [piece_noesc ind_piece] in *.
+  - constructor; [|constructor]. cbn [piece_noesc]. apply expand_Forall; [repeat constructor; discriminate|apply spaces_noesc|exact Hp].
+  - constructor; [apply pad_noesc|]. constructor; [apply ind_text_noesc, Hp|constructor].
+  - constructor; [apply pad_noesc|]. constructor; [apply ind_text_noesc, Hp|constructor].
+Qed.
+
+(* 2. the indented line is the line of the indented pieces *)
+Theorem indent_text_pieces sty n ps : pieces_ok sty ps -> indent_text n (line_str ps) = line_str (ind_pieces n true ps).
+Proof. intros H. rewrite indent_text_expand. apply (ind_pieces_str sty n ps true H). Qed.
+Theorem indent_good sty n l : good_line sty l -> good_line sty (indent_text n l).
+Proof.
+  intros (ps & Hok & ->). exists (ind_pieces n true ps). split; [apply ind_pieces_ok, Hok|apply (indent_text_pieces sty), Hok].
+Qed.
+Theorem indent_good_ne sty n l : good_line_ne sty l -> good_line_ne sty (indent_text n l).
+Proof.
+  intros (ps & Hok & Hne & ->). exists (ind_pieces n true ps).
+  split; [apply ind_pieces_ok, Hok|]. split; [apply ind_pieces_noesc, Hne|apply (indent_text_pieces sty), Hok].
+Qed.
